@@ -28,7 +28,8 @@ REPLAY_DIR = os.path.join(VERIF, "replays")
 KNOWN = os.path.join(VERIF, "known_findings.json")
 SCRATCH_ROOT = os.environ.get("VERIF_SCRATCH", "/var/tmp")
 JOBS = int(os.environ.get("VERIF_JOBS", "8"))
-MEM_KB = int(os.environ.get("VERIF_MEM_KB", str(12 * 1024 * 1024)))  # per process (ulimit -v)
+TOTAL_MEM_KB = int(os.environ.get("VERIF_TOTAL_MEM_KB", str(48 * 1024 * 1024)))
+MEM_KB = int(os.environ.get("VERIF_MEM_KB", str(7 * 1024 * 1024)))  # per process (ulimit -v)
 
 CRATE_OF_DIR = {"vm": "gluon_vm", "base": "gluon_base", "parser": "gluon_parser",
                 "check": "gluon_check", "format": "gluon_format"}
@@ -51,6 +52,7 @@ class Harness:
         self.prop = "C" + name[1:3]
         self.tier = ann.get("tier", "quick")
         self.cap = int(ann.get("cap", "600"))
+        self.mem_gb = int(ann.get("mem", "0"))  # 0 = default per-process memory cap
         self.unwindset = []
         for ent in filter(None, ann.get("unwindset", "").split(",")):
             pat, n = ent.rsplit(":", 1)
@@ -71,9 +73,11 @@ class Harness:
         self.unexplained = []
 
     def group_key(self):
-        return (self.crate, tuple(self.unwindset))
+        return (self.crate, tuple(self.unwindset), self.mem_gb)
 
 
+# a harness declared through a macro: `some_macro!(c01_name, ...`
+MACRO_RE = re.compile(r"^\s*\w+!\s*\(\s*(c\d\d_[A-Za-z0-9_]+)\s*,")
 FN_RE = re.compile(r"^\s*(?:pub\s+)?fn\s+(c\d\d_[A-Za-z0-9_]+)\s*\(")
 
 
@@ -98,6 +102,12 @@ def parse_harness_file(path):
                 continue
             if s.startswith("#[kani::proof"):
                 saw_proof = True
+                continue
+            mm = MACRO_RE.match(line)
+            if mm:
+                harnesses.append(Harness(mm.group(1), ann, path, append_to))
+                ann = {}
+                saw_proof = False
                 continue
             m = FN_RE.match(line)
             if m and saw_proof:
@@ -184,13 +194,13 @@ class Inconclusive(Exception):
 # running kani
 # --------------------------------------------------------------------------------------------
 
-def run(cmd, cwd, timeout, logfile, env=None):
+def run(cmd, cwd, timeout, logfile, env=None, mem_kb=None):
     e = dict(os.environ)
     e["CARGO_NET_OFFLINE"] = "true"
     e.pop("RUSTFLAGS", None)
     if env:
         e.update(env)
-    pre = "ulimit -v %d; exec " % MEM_KB
+    pre = "ulimit -v %d; exec " % (mem_kb or MEM_KB)
     with open(logfile, "ab") as lf:
         lf.write(("\n$ " + " ".join(cmd) + "\n").encode())
         lf.flush()
@@ -228,13 +238,44 @@ def find_metadata(ws, crate, names):
     return best
 
 
+KANI_LIB_C = os.path.expanduser("~/.kani/kani-0.68.0/library/kani/kani_lib.c")
+
+
 def show_loops(goto_file):
-    out = subprocess.run(["goto-instrument", "--show-loops", "--json-ui", goto_file],
-                         stdout=subprocess.PIPE, stderr=subprocess.DEVNULL, timeout=600).stdout.decode(errors="replace")
+    """Loop ids of the program a harness reaches.  The compiler leaves a symbol table
+    (`*.symtab.out`); the first step of Kani's own pipeline (goto-cc with kani_lib.c) turns it into
+    goto functions, which is all `--show-loops` needs.  Ids are mangled function names + loop
+    number, the same in every harness of one build."""
+    tmp = goto_file + ".loops.tmp"
+    try:
+        libs = glob.glob(os.path.expanduser("~/.kani/kani-*/library/kani/kani_lib.c"))
+        subprocess.run(["goto-cc", goto_file] + libs[:1] + ["-o", tmp], stdout=subprocess.DEVNULL,
+                       stderr=subprocess.DEVNULL, timeout=900)
+        out = subprocess.run(["goto-instrument", "--show-loops", "--json-ui", tmp],
+                             stdout=subprocess.PIPE, stderr=subprocess.DEVNULL, timeout=900).stdout.decode(errors="replace")
+    finally:
+        if os.path.exists(tmp):
+            os.remove(tmp)
     return re.findall(r'"name":\s*"([^"]+)"', out)
 
 
-def run_group(ws, crate, group, logfile, tier):
+def resolve_unwindset(harnesses, patterns):
+    from concurrent.futures import ThreadPoolExecutor
+    loops = set()
+    with ThreadPoolExecutor(max_workers=min(JOBS, max(1, len(harnesses)))) as ex:
+        for ls in ex.map(lambda h: show_loops(h.goto), harnesses):
+            loops.update(ls)
+    uw = {}
+    for pat, n in patterns:
+        ids = [l for l in loops if re.search(pat, l)]
+        if not ids:
+            log("note: unwindset pattern %r matches no loop" % pat)
+        for l in ids:
+            uw[l] = max(uw.get(l, 0), n)
+    return uw
+
+
+def run_group(ws, crate, group, logfile, tier, _second_pass=False, _uw=None):
     names = [h.name for h in group]
     filt = []
     for n in names:
@@ -252,19 +293,12 @@ def run_group(ws, crate, group, logfile, tier):
     for h in group:
         h.pretty = hs[h.name]["pretty_name"]
         h.goto = os.path.join(outdir, os.path.basename(hs[h.name]["goto_file"]))
-    # 2. resolve unwindset patterns against the loops of the generated program
+    # 2. resolve unwindset patterns against the loops of the generated program (sampled on a few
+    #    harnesses; a harness that reaches a matching loop the sample did not is re-run below)
     uw = {}
     patterns = group[0].unwindset
     if patterns:
-        loops = set()
-        for h in group:
-            loops.update(show_loops(h.goto))
-        for pat, n in patterns:
-            ids = [l for l in loops if re.search(pat, l)]
-            if not ids:
-                log("note: unwindset pattern %r matches no loop" % pat)
-            for l in ids:
-                uw[l] = max(uw.get(l, 0), n)
+        uw = _uw if _uw is not None else resolve_unwindset(group[:4], patterns)
         for h in group:
             h.resolved_unwindset = sorted(uw.items())
     # 3. verification
@@ -272,13 +306,15 @@ def run_group(ws, crate, group, logfile, tier):
     shutil.rmtree(resdir, ignore_errors=True)
     jsn = os.path.join(ws.root, "export-%s-%d.json" % (crate, abs(hash(tuple(names))) % 100000))
     cap = max(h.cap for h in group)
-    cmd = kani_base(ws, crate) + filt + ["-j", str(min(JOBS, len(group))), "--output-format", "terse",
+    mem_kb = group[0].mem_gb * 1024 * 1024 if group[0].mem_gb else MEM_KB
+    jobs = max(1, min(JOBS, len(group), TOTAL_MEM_KB // mem_kb))
+    cmd = kani_base(ws, crate) + filt + ["-j", str(jobs), "--output-format", "terse",
                                          "--output-into-files", "--harness-timeout", "%ds" % cap,
                                          "--export-json", jsn]
     if uw:
         cmd += ["--cbmc-args", "--unwindset", ",".join("%s:%d" % kv for kv in sorted(uw.items()))]
-    waves = (len(group) + JOBS - 1) // JOBS
-    rc = run(cmd, ws.repo, cap * waves + 900, logfile)
+    waves = (len(group) + jobs - 1) // jobs
+    rc = run(cmd, ws.repo, cap * waves + 900, logfile, mem_kb=mem_kb)
     # 4. collect
     exp = {}
     try:
@@ -293,17 +329,31 @@ def run_group(ws, crate, group, logfile, tier):
         log("no export json (%s)" % ex)
     for h in group:
         parse_result(h, os.path.join(resdir, h.pretty), exp.get(h.pretty, {}))
+    retry = [h for h in group if h.status == "UNWIND" and patterns and not getattr(h, "retried", False)]
+    if retry and not _second_pass:
+        uw2 = resolve_unwindset(retry, patterns)
+        if set(uw2) - set(uw):
+            log("second pass for %d harnesses with additional loop ids" % len(retry))
+            for h in retry:
+                h.retried = True
+                h.failed, h.unsat_covers = [], []
+            run_group(ws, crate, retry, logfile, tier, _second_pass=True, _uw=dict(uw, **uw2))
 
+
+# CBMC float checks that Kani turns on (--nan-check) but that are not Rust panics: producing a NaN
+# or raising an IEEE exception flag is defined behaviour.
+BENIGN = re.compile(r"^(NaN on |floating-point exception)")
 
 CHECK_RE = re.compile(
-    r"^Check \d+: (?P<id>\S+)\n\s+- Status: (?P<st>\w+)\n\s+- Description: \"(?P<desc>.*?)\"\n(?:\s+- Location: (?P<loc>.*?)\n)?",
+    r"^Check \d+: (?P<id>[^\n]+)\n\s+- Status: (?P<st>\w+)\n\s+- Description: \"(?P<desc>.*?)\"\n(?:\s+- Location: (?P<loc>.*?)\n)?",
     re.M | re.S)
 
 
 def parse_result(h, path, exp):
     if not os.path.exists(path):
         h.status = "ERROR"
-        h.detail = "no result file (driver crashed, timed out or was killed)"
+        h.status = "OOM"
+        h.detail = "no result file: CBMC aborted (out of memory under ulimit -v) or was killed"
         if exp.get("exit_status"):
             h.detail += " exit_status=%s" % exp.get("exit_status")
         return
@@ -324,6 +374,9 @@ def parse_result(h, path, exp):
                 h.unsat_covers.append("%s @ %s" % (desc, loc))
             continue
         h.checks_total += 1
+        if st == "FAILURE" and BENIGN.match(desc):
+            h.benign = getattr(h, "benign", 0) + 1
+            continue
         if st == "FAILURE":
             fn = ""
             mm = re.search(r" in function (.*)$", loc)
@@ -351,6 +404,9 @@ def parse_result(h, path, exp):
             h.status = "FAIL"
         elif unwind_fail:
             h.status = "UNWIND"
+            h.detail = "; ".join(sorted({u["fn"] for u in unwind_fail}))[:300]
+        elif getattr(h, "benign", 0) and not undet:
+            h.status = "PASS"   # only benign float checks failed
         else:
             h.status = "ERROR"
             h.detail = "FAILED without a failed check: " + txt[-400:]
@@ -439,6 +495,7 @@ def main():
     os.makedirs(EVIDENCE_DIR, exist_ok=True)
     ws = Workspace(keep=args.keep)
     logfile = os.path.join(ws.root, "kani.log")
+    open(logfile, "w").close()
     rc = 2
     try:
         if args.replay:
@@ -459,7 +516,7 @@ def main():
             groups.setdefault(h.group_key(), []).append(h)
         for key in sorted(groups, key=lambda k: (k[0], len(k[1]))):
             g = groups[key]
-            log("group %s unwindset=%s: %d harnesses" % (key[0], list(key[1]), len(g)))
+            log("group %s unwindset=%s mem=%s: %d harnesses" % (key[0], list(key[1]), key[2] or "default", len(g)))
             run_group(ws, key[0], g, logfile, args.tier)
         known = load_known()
         rc = report(prop, args.tier, seed, sel, known, uncovered, t0, ws, logfile)
